@@ -192,3 +192,36 @@ def block_smooth(P, a, b, k):
 spec(Spec('BlockSmoothConvexFunction', FN,
           lambda m: ({'partition': SPartition(2), 'L': [sym('L1'), sym('L2')]}, [lambda P: P['L'][0].term > 0, lambda P: P['L'][1].term > 0]),
           [Cond('smoothness_convexity_block', 'pair', PTS, 'blocks', 'inequality', block_smooth)]))
+
+
+# ----------------------------------------------------------------------------- parameter corners: a parameter EXACTLY zero
+# A symbolic parameter answers `== 0` with False (generic regime), so code guarded by `if self.mu == 0:` is never taken symbolically.  The corner modes
+# below run the class with the concrete python float 0.0 for the named parameter(s) (the other parameters stay symbolic): the documented conditions,
+# evaluated with that value, must still be exactly what is generated.
+ZERO_CORNERS = {
+    'SmoothStronglyConvexFunction': ['mu'], 'StronglyConvexFunction': ['mu'], 'SmoothStronglyConvexQuadraticFunction': ['mu'],
+    'StronglyMonotoneOperator': ['mu'], 'CocoerciveOperator': ['beta'], 'CocoerciveStronglyMonotoneOperator': ['mu', 'beta', 'mu+beta'],
+    'LipschitzStronglyMonotoneOperator': ['mu'], 'NegativelyComonotoneOperator': ['rho'], 'SymmetricLinearOperator': ['mu'],
+}
+
+
+def _with_zero_corners(spec_, corners):
+    base = spec_.params
+
+    def params(m):
+        z = m.get('zero')
+        P, hyps = base({k: v for k, v in m.items() if k != 'zero'})
+        if z:
+            names = z.split('+')
+            P = dict(P)
+            for n in names:
+                P[n] = 0.0
+            hyps = [h for h in hyps if not (isinstance(h, str) and any(h.replace(' ', '') in ('%s>0' % n, '%s>=0' % n) for n in names))]
+        return P, hyps
+    spec_.params = params
+    spec_.modes = list(spec_.modes) + [dict(m, zero=c) for m in spec_.modes for c in corners]
+
+
+for _cls, _corners in ZERO_CORNERS.items():
+    if _cls in SPECS:
+        _with_zero_corners(SPECS[_cls], _corners)
